@@ -3,7 +3,7 @@
 . "$(dirname "$0")/env.sh"
 d="$(cd "$1" && pwd)"; id="$2"; tier="${3:-quick}"
 if [ -n "$(git -C /repo status --porcelain)" ]; then echo "/repo not clean"; exit 2; fi
-trap 'git -C /repo checkout -- . ; git -C /repo clean -fdq' EXIT
+trap 'git -C /repo checkout -- . ; git -C /repo clean -fdq; "$VERIF_ROOT/scripts/build.sh" inst >/dev/null 2>&1' EXIT
 git -C /repo apply "$d/patch.diff" || { echo "patch does not apply"; exit 2; }
 cd "$VERIF_ROOT"
 out="$(VERIF_NO_EVIDENCE=1 scripts/check.sh "$id" "$tier" --no-evidence 2>&1)"; rc=$?
